@@ -1238,28 +1238,93 @@ func (a *Analysis) NewlineSymmetry() *report.RuleResult {
 			pos  token.Pos
 		}
 		var cmps []cmp
+		// locals that name one byte of the input: c := lex.data[p-1]
+		byteLocal := map[types.Object]ast.Expr{}
+		assignedTwice := map[types.Object]bool{}
 		ast.Inspect(fd.Body, func(n ast.Node) bool {
-			be, ok := n.(*ast.BinaryExpr)
-			if !ok || (be.Op != token.EQL && be.Op != token.NEQ) {
+			as, ok := n.(*ast.AssignStmt)
+			if !ok || len(as.Lhs) != len(as.Rhs) {
 				return true
 			}
-			side := func(x, y ast.Expr) {
-				tv := info.Types[y]
-				if tv.Value == nil {
-					return
+			for i, l := range as.Lhs {
+				id, ok := l.(*ast.Ident)
+				if !ok {
+					continue
 				}
-				v, ok := constant.Int64Val(constant.ToInt(tv.Value))
-				if !ok || (v != 10 && v != 13) {
-					return
+				o := info.Defs[id]
+				if o == nil {
+					o = info.Uses[id]
 				}
-				if _, isIdx := unparen(x).(*ast.IndexExpr); !isIdx {
-					return
+				if o == nil {
+					continue
 				}
-				e := strings.ReplaceAll(types.ExprString(unparen(x)), "(lex.p)", "lex.p")
-				cmps = append(cmps, cmp{e, be.Op == token.EQL, byte(v), be.Pos()})
+				if _, seen := byteLocal[o]; seen || as.Tok != token.DEFINE {
+					assignedTwice[o] = true
+					continue
+				}
+				if ix, isIdx := unparen(as.Rhs[i]).(*ast.IndexExpr); isIdx {
+					byteLocal[o] = ix
+				}
 			}
-			side(be.X, be.Y)
-			side(be.Y, be.X)
+			return true
+		})
+		resolve := func(x ast.Expr) (string, bool) {
+			x = unparen(x)
+			if id, ok := x.(*ast.Ident); ok {
+				if d, ok := byteLocal[info.Uses[id]]; ok && !assignedTwice[info.Uses[id]] {
+					x = d
+				}
+			}
+			if _, isIdx := x.(*ast.IndexExpr); !isIdx {
+				return "", false
+			}
+			return strings.ReplaceAll(types.ExprString(x), "(lex.p)", "lex.p"), true
+		}
+		nlConst := func(y ast.Expr) (byte, bool) {
+			tv := info.Types[y]
+			if tv.Value == nil {
+				return 0, false
+			}
+			v, ok := constant.Int64Val(constant.ToInt(tv.Value))
+			if !ok || (v != 10 && v != 13) {
+				return 0, false
+			}
+			return byte(v), true
+		}
+		ast.Inspect(fd.Body, func(n ast.Node) bool {
+			switch be := n.(type) {
+			case *ast.BinaryExpr:
+				if be.Op != token.EQL && be.Op != token.NEQ {
+					return true
+				}
+				side := func(x, y ast.Expr) {
+					v, ok := nlConst(y)
+					if !ok {
+						return
+					}
+					if e, ok := resolve(x); ok {
+						cmps = append(cmps, cmp{e, be.Op == token.EQL, v, be.Pos()})
+					}
+				}
+				side(be.X, be.Y)
+				side(be.Y, be.X)
+			case *ast.SwitchStmt:
+				// switch b { case '\n', '\r': … }: the switch form of the same comparisons
+				if be.Tag == nil {
+					return true
+				}
+				e, ok := resolve(be.Tag)
+				if !ok {
+					return true
+				}
+				for _, c := range be.Body.List {
+					for _, ce := range c.(*ast.CaseClause).List {
+						if v, ok := nlConst(ce); ok {
+							cmps = append(cmps, cmp{e, true, v, ce.Pos()})
+						}
+					}
+				}
+			}
 			return true
 		})
 		if len(cmps) == 0 {
